@@ -1175,12 +1175,13 @@ def run(ck: Ck) -> None:
     stage['search'] = round(time.time() - t_stage, 1)
     keys = {v['key'] for v in ck.violations}
     # A failed obligation is explained by a concrete failing input on the same path:
-    #  - a round-trip failure through serialise() explains the serialise-side template / escape-table obligations;
+    #  - a round-trip failure through serialise() (default or other parse options) or an indentation-dependence of the
+    #    tokens / non-blank text explains the serialise-side template / escape-table / root-test / newline-test obligations;
     #  - an export() round-trip failure explains the export census obligation;
     #  - an observed mutation explains the store / mutating-call census.
     # A translator that failed closed and a correspondence disagreement are never explained away: they mean the
     # model no longer describes the source, whatever else was found.
-    if any(k.startswith(('roundtrip:', 'roundtrip-named-node:')) for k in keys):
+    if any(k.startswith(('roundtrip:', 'roundtrip-named-node:', 'roundtrip-options:', 'indent-changes-')) for k in keys):
         for pre in ('instance:block_head_lexes', 'instance:block_tail_lexes', 'instance:leaf_lexes',
                     'instance:child_indent', 'instance:root_child_indent', 'instance:cfg_ok_and_esc_ok',
                     'instance:escape_table', 'instance:every_escape_written', 'instance:root_test_of_serialise',
